@@ -105,6 +105,7 @@ struct BuildMark {
     ctx: Context,
     nested_len: usize,
     input_len: usize,
+    src_len: usize,
     fs_len: usize,
     cs_len: usize,
     di_len: usize,
@@ -401,6 +402,7 @@ impl State {
             ctx: self.ctx.clone(),
             nested_len: self.nested.len(),
             input_len: self.input.len(),
+            src_len: self.sources.len(),
             fs_len: self.flow_stack.len(),
             cs_len: self.code.len(),
             di_len: self.dict.len(),
@@ -414,6 +416,8 @@ impl State {
 
     fn build_rollback(&mut self, mark: BuildMark) {
         self.input.truncate(mark.input_len);
+        // files it included are forgotten too, or a later `require` would skip them
+        self.sources.truncate(mark.src_len);
         self.nested.truncate(mark.nested_len);
         self.ctx = mark.ctx;
         self.flow_stack.truncate(mark.fs_len);
